@@ -6,6 +6,7 @@ import RbV.Lemmas.SmemsFmd
 import RbV.Lemmas.FmdBridge
 import RbV.Lemmas.FmdInitExt
 import RbV.Thm.GenSrcFmdIndex
+import RbV.Thm.GenSrcFmAccess
 /-!
 # C06 — FMD-index: SMEMs on both strands, `all_smems`, bi-interval extension
 
@@ -569,13 +570,16 @@ theorem fmd_ext_of_empty_source (lessF : Nat → Nat) (occF : Nat → Nat → Na
    forward_ext_dead lessF occF iv a N B h0 hl hlB hr hrB hB hN hk' hms⟩
 
 /-- translated `smems` = sweep model, for **every** family of operations the translated extension functions compute on
-a closed set of safe intervals (`SafeOps`), up to the order of the matches -/
+a closed set of safe intervals (`SafeOps`), up to the order of the matches; `hdead`: the model reports nothing when
+`pattern[i]` does not occur (holds for `l ≥ 1`; how the text reaches the empty answer there is left free — seeded C06-H4).
+The unconditional step-by-step equality is the soft module `Thm/GenSrcFmdSmemsModel.lean`. -/
 theorem fmd_smems_source_eq_model (lessF : Nat → Nat) (occF : Nat → Nat → Nat) (ops : SmemModel.Ops Bi)
     (S : Nat → Bi → Prop) (pat : List Nat) (hS : SafeOps lessF occF ops S pat) (i l : Nat) (hi : i < pat.length)
-    (hL : pat.length + 1 < 2 ^ 63) :
+    (hL : pat.length + 1 < 2 ^ 63)
+    (hdead : (ops.initWith i (pat.getD i 0)).size = 0 → SmemModel.smems ops pat i l = []) :
     ∃ res, SrcFmdSmems.smems lessF occF dnaCompl pat i l = Rs.Res.ok res ∧
       res.Perm ((SmemModel.smems ops pat i l).map hitT) :=
-  smems_eq_model hS i l hi hL
+  smems_eq_model_of hS i l hi hL hdead
 
 /-- translated `all_smems` = sweep model, given that the translated `smems` returns the model's matches in some order -/
 theorem fmd_all_smems_source_eq_model (lessF : Nat → Nat) (occF : Nat → Nat → Nat) (ops : SmemModel.Ops Bi)
@@ -629,5 +633,92 @@ example : ∃ res, SrcFmdSmems.smems (LF.lessRef (LF.bwtOf T1 sa1)) (LF.occRef (
   fmd_smems_source_correct [[65, 84, 84, 67]] sa1 [65, 84, 84] (by decide) (by decide) (by decide) (by decide)
     (by decide) 2 1 (by decide) (by decide)
 end source
+
+/-! ## the accessor chain below the sweep, translated from the source text (session 6, genleft)
+
+`RbV/Gen/SrcFmAccess.lean`: `FMDIndex::{occ, less}` → `FMIndex::{occ, less}` → the translated `Occ::get`
+(`RbV/Gen/SrcOcc.lean`) / `less[a as usize]`, and the views `BiInterval::{forward, revcomp}`.  The tables are the ones the
+translated `Occ::new` (`Gen/SrcOcc.lean`) and `less` (`Gen/SrcLess.lean`) build from the BWT — both files are regenerated on
+`./check C06` as well.  Proofs: `RbV/Thm/GenSrcFmAccess.lean`. -/
+section accessors
+open RbV.Gen RbV.Thm.GenSrcFmdIndex RbV.Thm.GenSrcFmAccess RbV.FMDModel
+
+/-- **`FMDIndex::less` / `FMDIndex::occ`, as written, on the tables the translated constructors build from the BWT, are the
+specification's `less` / `occ`**: the translated `less(bwt, alphabet)` and `Occ::new(bwt, k, alphabet)` do not panic, and
+on the index holding their results `less(a)` = number of BWT symbols `< a` for every `a ≤ max_symbol + 1`, `occ(r, a)` =
+number of `a` in `bwt[0..=r]` for every row `r < n` and every symbol the table tracks — through both delegations
+(`self.fmindex.occ(r, a)`, `self.occ.borrow().get(self.bwt.borrow(), r, a)`), for every sampling rate `1 ≤ k < 2^32` -/
+theorem fmd_accessors_source_exact {Alph : Type} (maxSymbol : Alph → Option Nat) (symbols : Alph → List Nat)
+    (isWordDollar : Alph → Bool) (bwt : List Nat) (k : Nat) (alphabet : Alph) (ms : Nat)
+    (hms : maxSymbol alphabet = some ms) (hk : 0 < k) (hk32 : k < 2 ^ 32) (hn : bwt.length < 2 ^ 64)
+    (hms' : ms + 2 < 2 ^ 64) (hsym : ∀ x ∈ bwt, x ≤ ms) (hal : ∀ a ∈ symbols alphabet, a ≤ ms)
+    (hnd : (symbols alphabet).Nodup) (hw : isWordDollar alphabet = false → 36 ∉ symbols alphabet) :
+    ∃ lessT occT k', SrcLess.less maxSymbol bwt alphabet = Rs.Res.ok lessT ∧
+      SrcOcc.new maxSymbol symbols isWordDollar bwt k alphabet = Rs.Res.ok (occT, k') ∧
+      (∀ a, a < ms + 2 →
+        SrcFmAccess.fmdLess { fmindex := { bwt := bwt, less := lessT, occ := (occT, k') } } a
+          = Rs.Res.ok (LF.lessRef bwt a)) ∧
+      (∀ r a, r < bwt.length → a ∈ RbV.Thm.GenSrcOcc.alphaOf (symbols alphabet) (isWordDollar alphabet) (ms + 1) →
+        SrcFmAccess.fmdOcc (fun s c => s.count c) { fmindex := { bwt := bwt, less := lessT, occ := (occT, k') } } r a
+          = Rs.Res.ok (LF.occRef bwt r a)) :=
+  accessors_exact maxSymbol symbols isWordDollar bwt k alphabet ms hms hk hk32 hn hms' hsym hal hnd hw
+
+/-- `BiInterval::forward` / `revcomp`, as written: the half-open row intervals `[lower, lower + size)` /
+`[lower_rev, lower_rev + size)` (the sums fit `usize`) — the two intervals `SmemsProp` speaks about -/
+theorem biinterval_views_source_eq_model (iv : SrcFmAccess.BiInterval)
+    (h1 : iv.lower + iv.size < 2 ^ 64) (h2 : iv.lower_rev + iv.size < 2 ^ 64) :
+    SrcFmAccess.biForward iv = Rs.Res.ok { lower := iv.lower, upper := iv.lower + iv.size } ∧
+    SrcFmAccess.biRevcomp iv = Rs.Res.ok { lower := iv.lower_rev, upper := iv.lower_rev + iv.size } :=
+  ⟨biForward_eq iv h1, biRevcomp_eq iv h2⟩
+
+/-- **the sweep over the tables built from the BWT — partial.**  For an FMD index over `seqs` whose suffix array C03's
+checker accepts, with the tables built by the translated `less` / `Occ::new` from its BWT (alphabet hypotheses as in C04):
+(1) the constructors do not panic; (2) the translated accessor chain returns `lessRef` / `occRef` of that BWT on every
+in-range argument; (3) the translated `smems` run on these two functions does not panic and returns exactly the SMEMs.
+**Missing for the full composition** (`fmd_smems_source_correct_composed`): the translated `smems` / `backward_ext` take
+`less` / `occ` as *total* pure functions (dialect fmd), so (2) and (3) are linked only through the values — that every call
+the sweep makes is in range (rows `< n`, symbols `≤ max_symbol + 1`: the accessors panic outside) is not derived; it needs
+the range invariant `lower + size ≤ n` of every interval the sweep builds, which `Safe` does not carry. -/
+theorem fmd_smems_source_correct_composed_partial {Alph : Type} (maxSymbol : Alph → Option Nat) (symbols : Alph → List Nat)
+    (isWordDollar : Alph → Bool) (alphabet : Alph) (ms k : Nat) (seqs : List (List Nat)) (sa pat : List Nat)
+    (hne : seqs ≠ []) (hseqs : ∀ s ∈ seqs, ∀ c ∈ s, isDna c = true)
+    (hc : checkSA (fmdText seqs) sa = true) (hpat : ∀ c ∈ pat, isDna c = true)
+    (hsz : M sa.length * (pat.length + 2) < 2 ^ 64) (i l : Nat) (hi : i < pat.length) (hl : 1 ≤ l)
+    (hms : maxSymbol alphabet = some ms) (hk : 0 < k) (hk32 : k < 2 ^ 32) (hms' : ms + 2 < 2 ^ 64)
+    (hsym : ∀ x ∈ LF.bwtOf (fmdText seqs) sa, x ≤ ms) (hal : ∀ a ∈ symbols alphabet, a ≤ ms)
+    (hnd : (symbols alphabet).Nodup) (hw : isWordDollar alphabet = false → 36 ∉ symbols alphabet) :
+    ∃ lessT occT k', SrcLess.less maxSymbol (LF.bwtOf (fmdText seqs) sa) alphabet = Rs.Res.ok lessT ∧
+      SrcOcc.new maxSymbol symbols isWordDollar (LF.bwtOf (fmdText seqs) sa) k alphabet = Rs.Res.ok (occT, k') ∧
+      (∀ a, a < ms + 2 →
+        SrcFmAccess.fmdLess { fmindex := { bwt := LF.bwtOf (fmdText seqs) sa, less := lessT, occ := (occT, k') } } a
+          = Rs.Res.ok (LF.lessRef (LF.bwtOf (fmdText seqs) sa) a)) ∧
+      (∀ r a, r < sa.length → a ∈ RbV.Thm.GenSrcOcc.alphaOf (symbols alphabet) (isWordDollar alphabet) (ms + 1) →
+        SrcFmAccess.fmdOcc (fun s c => s.count c)
+            { fmindex := { bwt := LF.bwtOf (fmdText seqs) sa, less := lessT, occ := (occT, k') } } r a
+          = Rs.Res.ok (LF.occRef (LF.bwtOf (fmdText seqs) sa) r a)) ∧
+      ∃ res, SrcFmdSmems.smems (LF.lessRef (LF.bwtOf (fmdText seqs) sa)) (LF.occRef (LF.bwtOf (fmdText seqs) sa))
+          dnaCompl pat i l = Rs.Res.ok res ∧ SmemsProp (fmdText seqs) sa pat i l (res.map obsT) := by
+  have hlen : (LF.bwtOf (fmdText seqs) sa).length = sa.length := by simp [LF.bwtOf]
+  have hn : (LF.bwtOf (fmdText seqs) sa).length < 2 ^ 64 := by
+    rw [hlen]; unfold M at hsz
+    have : 13 * sa.length + 2 ≤ (13 * sa.length + 2) * (pat.length + 2) := Nat.le_mul_of_pos_right _ (by omega)
+    omega
+  obtain ⟨lessT, occT, k', h1, h2, h3, h4⟩ := accessors_exact maxSymbol symbols isWordDollar (LF.bwtOf (fmdText seqs) sa) k
+    alphabet ms hms hk hk32 hn hms' hsym hal hnd hw
+  exact ⟨lessT, occT, k', h1, h2, h3, fun r a hr ha => h4 r a (by rw [hlen]; exact hr) ha,
+    fmd_smems_source_correct seqs sa pat hne hseqs hc hpat hsz i l hi hl⟩
+
+-- non-vacuity: the accessor chain evaluated on hand-made tables of the BWT `[1, 2, 1, 0]` (k = 2), and the views
+example : SrcFmAccess.fmdLess { fmindex := { bwt := [1, 2, 1, 0], less := [0, 1, 3, 4], occ := ([[0, 0], [1, 2], [0, 1]], 2) } } 2
+    = Rs.Res.ok 3 := by decide
+example : SrcFmAccess.fmdOcc (fun s c => s.count c)
+    { fmindex := { bwt := [1, 2, 1, 0], less := [0, 1, 3, 4], occ := ([[0, 0], [1, 2], [0, 1]], 2) } } 3 1 = Rs.Res.ok 2 := by decide
+example : SrcFmAccess.fmdLess { fmindex := { bwt := [1, 2, 1, 0], less := [0, 1, 3, 4], occ := ([], 2) } } 4 = Rs.Res.panic := by
+  decide
+example : SrcFmAccess.biForward ⟨4, 2, 1, 3⟩ = Rs.Res.ok ⟨4, 5⟩ ∧ SrcFmAccess.biRevcomp ⟨4, 2, 1, 3⟩ = Rs.Res.ok ⟨2, 3⟩ := by
+  decide
+example : SrcFmAccess.biForward ⟨2 ^ 64 - 1, 2, 1, 3⟩ = Rs.Res.panic := by decide
+
+end accessors
 
 end RbV.Thm.C06
